@@ -1,10 +1,14 @@
 """Test double for the (absent) `orng` package: ArrayRNG wraps a numpy Generator."""
+import os
+
 import numpy as np
 
 
 class ArrayRNG:
     def __init__(self, backend="numpy", seed=None, **kw):
         self.backend = backend
+        if seed is None and os.environ.get("VERIF_ORNG_SEED"):
+            seed = int(os.environ["VERIF_ORNG_SEED"])      # harness-only: make the ambient entropy controllable
         self._g = np.random.default_rng(seed)
 
     @property
